@@ -13,11 +13,12 @@ import (
 
 // Ctx is shared by all rules of one checker invocation.
 type Ctx struct {
-	P    *load.Program
-	Tier string
-	abuf *ABuf
-	afmt *AFmt
-	lab  *Labels
+	P      *load.Program
+	Tier   string
+	Oracle string // directory of the reference fmt sources (default /verif/checker/oracle)
+	abuf   *ABuf
+	afmt   *AFmt
+	lab    *Labels
 }
 
 type RuleFunc func(c *Ctx) []*report.Result
@@ -30,6 +31,7 @@ var Properties = map[string][]string{
 	"C01": {"C01.a", "C01.b", "C01.d", "C05.b", "C10.scan", "C03.d"},
 	"C02": {"C02.a"},
 	"C03": {"C03.a", "C03.c", "C03.d"},
+	"C04": {"C04.a", "C04.b"},
 	"C09": {"C09", "C01.a", "C01.b", "C16.c"},
 	"C10": {"C07", "C10.scan", "C10.b", "C10.f", "C10.g", "C03.c"},
 	"C05": {"C02.a", "C05.b", "C05.c", "C01.d"},
